@@ -21,6 +21,7 @@ pub struct QueueReader<'a, T: Read + Seek> {
     buffer_sizes: Vec<usize>,
     byte_streams: Vec<ByteStreamReadBuffer>,
     queues: Vec<VecDeque<RecordValue>>,
+    failed: bool,
 }
 
 impl<'a, T: Read + Seek> QueueReader<'a, T> {
@@ -40,6 +41,7 @@ impl<'a, T: Read + Seek> QueueReader<'a, T> {
             buffer_sizes: vec![0; pc.prototype.len()],
             byte_streams: vec![ByteStreamReadBuffer::new(); pc.prototype.len()],
             queues: vec![VecDeque::new(); pc.prototype.len()],
+            failed: false,
         })
     }
 
@@ -74,6 +76,17 @@ impl<'a, T: Read + Seek> QueueReader<'a, T> {
 
     /// Reads the next packet from the compressed vector and decodes it into the queues.
     pub fn advance(&mut self) -> Result<()> {
+        // A failed attempt stops somewhere in the middle of a packet. Reading on from there
+        // would interpret arbitrary bytes as packets and produce points with wrong values.
+        if self.failed {
+            Error::invalid("Cannot continue reading points after an earlier error")?
+        }
+        let result = self.advance_inner();
+        self.failed = result.is_err();
+        result
+    }
+
+    fn advance_inner(&mut self) -> Result<()> {
         let packet_header = PacketHeader::read(self.reader)?;
         match packet_header {
             PacketHeader::Index(header) => {
